@@ -18,8 +18,7 @@ REPO = os.path.abspath(os.environ.get("VERIF_REPO", "/repo"))
 VERIF = os.path.dirname(os.path.dirname(os.path.abspath(__file__)))
 
 
-class Reject(Exception):
-    """Raised by a driver when the generated case is outside the documented domain."""
+from vf.errors import Reject  # noqa: E402  (re-exported; drivers may import it from either module)
 
 
 class Ctx:
